@@ -366,7 +366,65 @@ class _Worker:
         return json.loads(line)
 
 
+def build_req(id_, expr):
+    """a parser that is not compiled but built at run time with the client's builder API (b.*, buntyped.Union, createNamedType)"""
+    return {"id": id_, "build": expr}
+
+
+def b_expr(t, env, depth=0):
+    """JavaScript expression that builds a parser for the type term t with @beff/client's b API, or None when the API has no
+    spelling for it (optional properties, index signatures, tuples, intersections, templates, Map / Set, formats, generics,
+    recursion).  N(name, parser) is createNamedType under a name unique to the job (driver.mjs)."""
+    k = t["t"]
+    if depth > 8:
+        return None
+    if k == "prim":
+        m = {"string": "b.String()", "number": "b.Number()", "boolean": "b.Boolean()", "null": "b.Null()", "undefined": "b.Undefined()",
+             "void": "b.Void()", "any": "b.Any()", "unknown": "b.Unknown()", "Date": "b.Date()"}
+        return m.get(t["p"])
+    if k == "lit":
+        v = t["v"]
+        if v["k"] == "str":
+            return "b.Const(" + json.dumps(v["s"]) + ")"
+        if v["k"] == "bool":
+            return "b.Const(" + ("true" if v["b"] else "false") + ")"
+        if v["k"] == "num" and re.fullmatch(r"-?\d+(\.\d+)?", v["n"]):
+            return "b.Const(" + v["n"] + ")"
+        return None
+    if k == "arr":
+        e = b_expr(t["e"], env, depth + 1)
+        return None if e is None else f"b.Array({e})"
+    if k == "ta":
+        return f"b.{t['c']}()"
+    if k == "obj":
+        if t["ix"] or any(p["opt"] for p in t["ps"]):
+            return None
+        parts = []
+        for p in t["ps"]:
+            e = b_expr(p["ty"], env, depth + 1)
+            if e is None:
+                return None
+            parts.append(f"[{json.dumps(p['key'])}]: {e}")
+        return "b.Object({ " + ", ".join(parts) + " })"
+    if k == "union":
+        ms = [b_expr(m, env, depth + 1) for m in t["ms"]]
+        return None if any(m is None for m in ms) else "buntyped.Union(" + ", ".join(ms) + ")"
+    if k == "deco":
+        return b_expr(t["a"], env, depth)
+    if k == "ref":
+        d = next((d for d in env if d["n"] == t["n"]), None)
+        if d is None or d.get("kind", "type") != "type" or d.get("params"):
+            return None
+        e = b_expr(d["ty"], [x for x in env if x["n"] != t["n"]], depth + 1)     # a recursive alias has no spelling
+        return None if e is None else f"N({json.dumps(t['n'])}, {e})"
+    return None
+
+
 def compile_all(reqs, timeout=10.0, nworkers=None):
+    if any("build" in r for r in reqs):
+        real = [r for r in reqs if "build" not in r]
+        done = iter(compile_all(real, timeout, nworkers)) if real else iter(())
+        return [{"id": r["id"], "outcome": "code", "code": "", "build": r["build"], "names": ["T"]} if "build" in r else next(done) for r in reqs]
     """Compile every request in a pool of beffc child processes. A hang (watchdog), a crash
     (stack overflow = SIGABRT/SIGSEGV) and a panic are outcomes of the code under test, not tool errors."""
     nworkers = nworkers or min(NCPU, max(1, len(reqs) // 20 + 1))
